@@ -205,6 +205,18 @@ CLAIMED = {
              "velocity, 32-bit encoder) is exercised.",
         technique="Coq proof over all inputs (lia over unbounded integers) + execution of the real generated device program in a kernel-validated ISA model",
         ref="7/C26"),
+    "C19": dict(
+        text="Theorems C19_bit_write_bits / C19_bit_write_frame (for every frame, position, bit number and value: a bit write changes exactly that bit; all other "
+             "bits, all other bytes and the length are unchanged), C19_bit_paths_agree_write / _read (the byte the generated code computes - OR / AND with the "
+             "64-bit mask, stored as one byte - equals Python's |= / &= ~mask; the bit it reads equals Python's), C19_bytes_paths_agree / C19_bytes_write_frame "
+             "(multi-byte variables: same bytes on both paths, exactly n of them at the position). Tie: random terminals (bit and byte entries, Structs with "
+             "offsets), a device linking them; the REAL slow path (PacketVar.get/set on current_data) and the REAL generated FastSyncGroup program (in the "
+             "kernel-validated Coq ISA model) run on the same random frames; both results must equal the model's and the own-bits/bytes-only oracle, "
+             "and both groups must place the terminal regions identically.",
+        note=TB + "Partial: ProcessDesc (PDO-table lookup) is exercised only through the EL7041 layout of C26; register allocation / emission are covered by "
+             "execution only; a little-endian host is assumed.",
+        technique="Coq proofs at bit level (Z.testbit) + execution of the real Python path and the real generated program on the same frames",
+        ref="7/C19"),
 }
 
 REASONS_NOT_YET = "no check built yet in this round (planned, see DESIGN.md section 7); nothing is claimed for it"
